@@ -57,6 +57,10 @@ theorem marker_interact (env : Env W HS) (Good : Val → Prop) (WInv : W → Pro
 
 theorem markerKit (env : Env W HS) (Good : Val → Prop) (WInv : W → Prop) (hg : HostGood env.host Good WInv)
     (hh : HndGood env.host Good) : InvKit env (MarkerFree Good WInv) Good where
+  nUser := fun x hx => by simp [bodyName, hx]
+  nValue := by decide
+  nYield := by decide
+  nReceive := by decide
   int := hg.int
   str := hg.str
   noneV := hg.noneV
@@ -200,7 +204,7 @@ theorem marker_core (env : Env W HS) (Good : Val → Prop) (WInv : W → Prop) (
   simp only [coreF, Bool.and_eq_true, List.all_eq_true] at hf
   obtain ⟨⟨⟨⟨⟨hbody, hau⟩, heu⟩, _⟩, _⟩, hparam⟩ := hf
   unfold runCore
-  refine invX_seqX (invX_stepM (QA := fun _ => True) ?_ fun _ _ => invX_done _ trivial) (invB kit fuel _ hbody)
+  refine invX_seqX (invX_stepM (QA := fun _ => True) ?_ fun _ _ => invX_done _ trivial) (invB kit bodyName_marks fuel _ hbody)
   exact invM_bind (marker_hookMetas env Good WInv hh (hg.bool true) _ _) fun _ _ =>
     invM_bind (invM_fetchRefs kit _ fun x hx =>
       ⟨heu x ((mem_sortNames x _).1 hx), fun v hv => hg.glob x v (heu x ((mem_sortNames x _).1 hx)) hv⟩) fun _ _ =>
